@@ -97,6 +97,26 @@ pub fn dump_op(op: &DataOperator) -> String {
     }
 }
 
+fn union_of(children: Vec<CD>) -> CD {
+    let mut x = cd("UNION", vec![]);
+    x.children = children;
+    x
+}
+
+/// the operator that selects exactly this (scalar) value; lists have no STAMQL syntax
+fn op_of_value(v: &DataValue) -> Option<DataOperator<'static>> {
+    Some(match v {
+        DataValue::Null => DataOperator::Null,
+        DataValue::String(s) => DataOperator::Equals(std::borrow::Cow::Owned(s.clone())),
+        DataValue::Int(i) => DataOperator::EqualsInt(*i),
+        DataValue::Float(f) => DataOperator::EqualsFloat(*f),
+        DataValue::Bool(true) => DataOperator::True,
+        DataValue::Bool(false) => DataOperator::False,
+        DataValue::Datetime(d) => DataOperator::ExactDatetime(*d),
+        DataValue::List(_) => return None,
+    })
+}
+
 pub fn dump_constraint(c: &Constraint) -> CD {
     match c {
         Constraint::Id(s) => cd("ID", vec![("id", s.to_string())]),
@@ -154,11 +174,68 @@ pub fn dump_constraint(c: &Constraint) -> CD {
             x
         }
         Constraint::Limit { begin, end } => cd("LIMIT", vec![("begin", begin.to_string()), ("end", end.to_string())]),
-        Constraint::Annotations(h, ql, d) => cd("ANNOTATIONS", vec![("n", h.len().to_string()), ("qualifier", q(*ql)), ("depth", depth(d))]),
-        Constraint::Data(h, ql) => cd("DATAHANDLES", vec![("n", h.len().to_string()), ("qualifier", q(*ql))]),
-        Constraint::Keys(h, ql) => cd("KEYS", vec![("n", h.len().to_string()), ("qualifier", q(*ql))]),
-        Constraint::Resources(h, ql) => cd("RESOURCES", vec![("n", h.len().to_string()), ("qualifier", q(*ql))]),
-        Constraint::TextSelections(h, ql) => cd("TEXTSELECTIONS", vec![("n", h.len().to_string()), ("qualifier", q(*ql))]),
+        // handle collections: "constrain by any of multiple ..." = the disjunction of the single constraints
+        Constraint::Annotations(h, ql, d) => union_of(
+            h.iter()
+                .map(|handle| match h.store().annotation(handle) {
+                    Some(a) => cd(
+                        "ANNOTATION",
+                        vec![("id", a.id().unwrap_or("?").to_string()), ("qualifier", q(*ql)), ("depth", depth(d)), ("offset", "none".into())],
+                    ),
+                    None => cd("INVALID-HANDLE", vec![]),
+                })
+                .collect(),
+        ),
+        Constraint::Data(h, ql) => union_of(
+            h.iter()
+                .map(|(set, data)| match h.store().annotationdata(set, data) {
+                    Some(x) => match op_of_value(x.value()) {
+                        Some(op) => cd(
+                            "DATA=",
+                            vec![
+                                ("set", x.set().id().unwrap_or("?").to_string()),
+                                ("key", x.key().id().unwrap_or("?").to_string()),
+                                ("qualifier", q(*ql)),
+                                ("operator", dump_op(&op)),
+                            ],
+                        ),
+                        None => cd("VALUE-WITHOUT-SYNTAX", vec![]),
+                    },
+                    None => cd("INVALID-HANDLE", vec![]),
+                })
+                .collect(),
+        ),
+        Constraint::Keys(h, ql) => union_of(
+            h.iter()
+                .map(|(set, key)| match h.store().key(set, key) {
+                    Some(k) => cd("DATA", vec![("set", k.set().id().unwrap_or("?").to_string()), ("key", k.id().unwrap_or("?").to_string()), ("qualifier", q(*ql))]),
+                    None => cd("INVALID-HANDLE", vec![]),
+                })
+                .collect(),
+        ),
+        Constraint::Resources(h, ql) => union_of(
+            h.iter()
+                .map(|handle| match h.store().resource(handle) {
+                    Some(r) => cd("RESOURCE", vec![("id", r.id().unwrap_or("?").to_string()), ("qualifier", q(*ql)), ("offset", "none".into())]),
+                    None => cd("INVALID-HANDLE", vec![]),
+                })
+                .collect(),
+        ),
+        Constraint::TextSelections(h, ql) => union_of(
+            h.iter()
+                .map(|(res, ts)| match h.store().resource(res).and_then(|r| r.textselection_by_handle(ts).ok()) {
+                    Some(t) => cd(
+                        "RESOURCE",
+                        vec![
+                            ("id", t.resource().id().unwrap_or("?").to_string()),
+                            ("qualifier", q(*ql)),
+                            ("offset", format!("B{},B{}", t.begin(), t.end())),
+                        ],
+                    ),
+                    None => cd("INVALID-HANDLE", vec![]),
+                })
+                .collect(),
+        ),
     }
 }
 
@@ -310,7 +387,7 @@ fn cd_oddities(c: &CD, out: &mut Vec<&'static str>) {
             _ => {}
         }
     }
-    if matches!(c.kind.as_str(), "DATA?=" | "ANNOTATIONS" | "DATAHANDLES" | "KEYS" | "RESOURCES" | "TEXTSELECTIONS") {
+    if matches!(c.kind.as_str(), "DATA?=" | "INVALID-HANDLE" | "VALUE-WITHOUT-SYNTAX") {
         out.push("outside-grammar:constraint-kind");
     }
     for ch in &c.children {
@@ -544,6 +621,169 @@ pub fn fixed_store() -> AnnotationStore {
     store
 }
 
+/// the fixed store, built once (handle collections of built queries refer to it)
+pub fn fixed() -> &'static AnnotationStore {
+    static STORE: std::sync::OnceLock<AnnotationStore> = std::sync::OnceLock::new();
+    STORE.get_or_init(fixed_store)
+}
+
+/// one member of a handle collection, as the pieces of its single-constraint STAMQL form
+pub struct Member {
+    pub keyword: &'static str,
+    pub args: Vec<String>,
+    pub value: Option<String>,
+    pub offset: Option<(usize, usize)>,
+}
+
+fn distinct(picks: &[u8], n: usize) -> Vec<usize> {
+    let mut out = vec![];
+    if n == 0 {
+        return out;
+    }
+    for p in picks {
+        let i = *p as usize % n;
+        if !out.contains(&i) {
+            out.push(i);
+        }
+    }
+    out
+}
+
+fn fixed_textselections() -> Vec<ResultTextSelection<'static>> {
+    fixed().resources().flat_map(|r| r.textselections().collect::<Vec<_>>()).collect()
+}
+
+pub fn coll_members(kind: u8, picks: &[u8]) -> Vec<Member> {
+    let store = fixed();
+    match kind % 5 {
+        0 => {
+            let all: Vec<_> = store.annotations().collect();
+            distinct(picks, all.len()).into_iter().map(|i| Member { keyword: "ANNOTATION", args: vec![all[i].id().unwrap_or("?").to_string()], value: None, offset: None }).collect()
+        }
+        1 => {
+            let all: Vec<_> = store.data().collect();
+            distinct(picks, all.len())
+                .into_iter()
+                .map(|i| Member {
+                    keyword: "DATA",
+                    args: vec![all[i].set().id().unwrap_or("?").to_string(), all[i].key().id().unwrap_or("?").to_string()],
+                    value: op_of_value(all[i].value()).and_then(|op| op.to_string().ok()).map(|s| s.trim_start_matches("= ").to_string()),
+                    offset: None,
+                })
+                .collect()
+        }
+        2 => {
+            let all: Vec<_> = store.keys().collect();
+            distinct(picks, all.len())
+                .into_iter()
+                .map(|i| Member { keyword: "DATA", args: vec![all[i].set().id().unwrap_or("?").to_string(), all[i].id().unwrap_or("?").to_string()], value: None, offset: None })
+                .collect()
+        }
+        3 => {
+            let all: Vec<_> = store.resources().collect();
+            distinct(picks, all.len()).into_iter().map(|i| Member { keyword: "RESOURCE", args: vec![all[i].id().unwrap_or("?").to_string()], value: None, offset: None }).collect()
+        }
+        _ => {
+            let all = fixed_textselections();
+            distinct(picks, all.len())
+                .into_iter()
+                .map(|i| Member { keyword: "RESOURCE", args: vec![all[i].resource().id().unwrap_or("?").to_string()], value: None, offset: Some((all[i].begin(), all[i].end())) })
+                .collect()
+        }
+    }
+}
+
+/// `Constraint::Annotations` / `Data` / `Keys` / `Resources` / `TextSelections` over the fixed store
+pub fn build_collection(kind: u8, picks: &[u8], qualifier: SelectionQualifier, depth: u8) -> Constraint<'static> {
+    let store = fixed();
+    match kind % 5 {
+        0 => {
+            let all: Vec<_> = store.annotations().collect();
+            let depth = match depth % 3 {
+                0 => AnnotationDepth::Zero,
+                1 => AnnotationDepth::One,
+                _ => AnnotationDepth::Max,
+            };
+            Constraint::Annotations(Handles::from_iter(distinct(picks, all.len()).into_iter().map(|i| all[i].handle()), store), qualifier, depth)
+        }
+        1 => {
+            let all: Vec<_> = store.data().collect();
+            Constraint::Data(Handles::from_iter(distinct(picks, all.len()).into_iter().map(|i| (all[i].set().handle(), all[i].handle())), store), qualifier)
+        }
+        2 => {
+            let all: Vec<_> = store.keys().collect();
+            Constraint::Keys(Handles::from_iter(distinct(picks, all.len()).into_iter().map(|i| (all[i].set().handle(), all[i].handle())), store), qualifier)
+        }
+        3 => {
+            let all: Vec<_> = store.resources().collect();
+            Constraint::Resources(Handles::from_iter(distinct(picks, all.len()).into_iter().map(|i| all[i].handle()), store), qualifier)
+        }
+        _ => {
+            let all = fixed_textselections();
+            Constraint::TextSelections(
+                Handles::from_iter(distinct(picks, all.len()).into_iter().filter_map(|i| all[i].handle().map(|h| (all[i].resource().handle(), h))), store),
+                qualifier,
+            )
+        }
+    }
+}
+
+/// Where handle collections occur in a query and whether the engine evaluates both the collection (built form) and
+/// the disjunction it is printed as in that place. Transcribed from init_state_* / update_state_* of
+/// src/api/query.rs and used only to *skip* the meaning comparison (errors raised while a query runs are swallowed
+/// by QueryIter, so "not implemented" cannot be told from "no results"); never as an oracle.
+fn collection_verdict(q: &Query) -> Option<&'static str> {
+    fn is_coll(c: &Constraint) -> bool {
+        matches!(c, Constraint::Annotations(..) | Constraint::Data(..) | Constraint::Keys(..) | Constraint::Resources(..) | Constraint::TextSelections(..))
+    }
+    fn nested(c: &Constraint) -> bool {
+        match c {
+            Constraint::Union(v) => v.iter().any(|x| is_coll(x) || nested(x)),
+            _ => false,
+        }
+    }
+    let mut verdict = None;
+    for (i, c) in q.constraints().enumerate() {
+        if nested(c) {
+            return Some("collection-inside-union");
+        }
+        if !is_coll(c) {
+            continue;
+        }
+        if i != 0 {
+            return Some("collection-not-first-constraint");
+        }
+        if q.has_subqueries() {
+            // the two forms produce the items of this level in a different order, and the rows of (sibling / OPTIONAL)
+            // sub-queries depend on that order (C08's domain)
+            return Some("collection-level-has-subqueries");
+        }
+        use SelectionQualifier::*;
+        let both = match (q.resulttype(), c) {
+            (Some(Type::Annotation), Constraint::Annotations(_, _, AnnotationDepth::One)) => true,
+            (Some(Type::AnnotationData), Constraint::Data(_, Normal)) => true,
+            (Some(Type::AnnotationData), Constraint::Annotations(_, _, AnnotationDepth::One)) => true,
+            (Some(Type::AnnotationData), Constraint::Annotations(_, Metadata, AnnotationDepth::Max)) => true,
+            (Some(Type::DataKey), Constraint::Annotations(_, _, AnnotationDepth::One)) => true,
+            (Some(Type::DataKey), Constraint::Annotations(_, Metadata, AnnotationDepth::Max)) => true,
+            (Some(Type::TextResource), Constraint::Resources(..)) => true,
+            _ => false,
+        };
+        if !both {
+            return Some("collection-unimplemented-in-one-form");
+        }
+        verdict = Some("");
+    }
+    for s in q.subqueries() {
+        match collection_verdict(s) {
+            Some("") => verdict = Some(""),
+            Some(why) => return Some(why),
+            None => {}
+        }
+    }
+    verdict
+}
+
 pub enum Meaning {
     Same { nonempty: bool },
     BothErr,
@@ -632,14 +872,35 @@ pub fn compare_meaning(q1: &Query, q2: &Query, d: &QD) -> Meaning {
         // differently for unknown/empty set ids (C08's domain), so the results are not compared
         return Meaning::Skipped("any-operator-canonicalised".into());
     }
+    // a handle collection and the disjunction it is printed as may produce their items in a different order (the order
+    // of query results is not documented): compared as multisets, and not at all when a LIMIT depends on the order
+    let mut unordered = false;
+    match collection_verdict(q1) {
+        None => {}
+        Some("") => {
+            fn has_limit(q: &Query) -> bool {
+                q.constraints().any(|c| matches!(c, Constraint::Limit { .. })) || q.subqueries().any(has_limit)
+            }
+            if has_limit(q1) {
+                return Meaning::Skipped("collection-with-limit".into());
+            }
+            unordered = true;
+        }
+        Some(why) => return Meaning::Skipped(why.into()),
+    }
     if d.qtype == "SELECT" {
-        let store = fixed_store();
-        let r1 = eval_select(&store, q1.clone());
-        let r2 = eval_select(&store, q2.clone());
+        // read-only: the shared store (handle collections of built queries are bound to it)
+        let store = fixed();
+        let r1 = eval_select(store, q1.clone());
+        let r2 = eval_select(store, q2.clone());
         match (r1, r2) {
             (Err(e), _) | (_, Err(e)) if e.starts_with("panic") => Meaning::Skipped(format!("engine-{}", e)),
             (Err(_), Err(_)) => Meaning::BothErr,
-            (Ok(a), Ok(b)) => {
+            (Ok(mut a), Ok(mut b)) => {
+                if unordered {
+                    a.sort();
+                    b.sort();
+                }
                 if a == b {
                     Meaning::Same { nonempty: !a.is_empty() }
                 } else {
